@@ -458,6 +458,30 @@ def shard(ctx):
                           {"kind": "pair", "a": a, "b": b, "data": docs, "only": ["c"]})
         else:
             ctx.res.distinct.add(("inline", sa.get("c"), tuple(sorted(set(P["_forms"])))))
+        # how one argument is written must not change what another parameter is bound to: write a query argument as `some <query>`
+        # (or swap in an unrelated literal) for a parameter the body never reads, the verdict of the call stays the same
+        prule, crule = P["rules"][0], P["rules"][1]
+        used = set(re.findall(r"%(p\d)", gen.pfile({"lets": [], "default": [], "rules": [prule]})))
+        cargs = crule["body"][0][0]["args"]
+        idle = [i for i, prm in enumerate(prule["params"]) if prm not in used]
+        if idle and len(cargs) > 1 and isinstance(sa, dict):
+            i = idle[0]
+            for how in ("some", "literal"):
+                P2 = gen.clone({k: v for k, v in P.items() if not k.startswith("_")})
+                a2 = P2["rules"][1]["body"][0][0]["args"]
+                if how == "some":
+                    if a2[i][0] != "query":
+                        continue
+                    a2[i] = ["somequery", a2[i][1]]
+                else:
+                    a2[i] = ["lit", "zz-unrelated"]
+                t2 = gen.pfile(P2)
+                s2, _ = status_map(ctx.w, t2, docs)
+                ctx.res.cases += 1
+                ctx.res.counts["idle-argument:" + how] += 1
+                if isinstance(s2, dict) and s2.get("c") != sa.get("c"):
+                    ctx.violation("inline:idle-argument:%s" % how, "rewriting the argument of an unused parameter (%s) changes the call's verdict: %s vs %s\n%s---\n%s--- doc %s" % (
+                        how, sa.get("c"), s2.get("c"), a, t2, docs[:300]), {"kind": "pair", "a": a, "b": t2, "data": docs, "only": ["c"]})
 
 
 def replay(case, w):
